@@ -46,7 +46,8 @@ Variable F : fieldType.
    (so the theorems hold for every pivot choice rule of this shape, e.g. the representative of 'F_p) *)
 Variable absr : F -> nat.
 Definition c02_fops : c02_ops F :=
-  C02Ops 0 1 +%R (fun a b => a - b) *%R -%R (fun a b => a / b) (fun a => a == 0) (fun a => absr a == 0%N) (fun a b => (absr b < absr a)%N).
+  C02Ops 0 1 +%R (fun a b => a - b) *%R -%R (fun a b => a / b) (fun a => a == 0) (fun a => absr a == 0%N) (fun a b => (absr b < absr a)%N)
+         (fun a => absr a == 0%N) (* absreal a < limit, for a nat-valued absreal and 0 < limit <= 1: see C02_limit_reading *).
 Definition c02_mx (n : nat) (A : seq (seq F)) : 'M[F]_n := \matrix_(i, j) c02_get c02_fops A i j.
 Definition c02_cv (n : nat) (x : seq F) : 'cV[F]_n := \col_i c02_vget c02_fops x i.
 (* well-formed n x n list matrix / n-vector *)
